@@ -1,0 +1,146 @@
+//go:build verif
+
+// Contracts for the deductive verifier in /verif (gocv). Comment-only file. Keys are abstract (bytes: key): a totally
+// ordered set with least element "" ; as an END key "" means +infinity.
+
+package locate
+
+// ---- containment -------------------------------------------------------------------------------------
+
+// inRange: start <= k < end, an empty end being +infinity.  inRangeByEnd: the range contains the greatest key below k
+// (start < k <= end), the empty k standing for +infinity (only a range unbounded above contains it).
+//@ spec func inRange(s []byte, e []byte, k []byte) bool { return s <= k && (e == "" || k < e) }
+//@ spec func inRangeByEnd(s []byte, e []byte, k []byte) bool { return ite(k == "", e == "", s < k && (e == "" || k <= e)) }
+
+//@ func contains
+//@   prop C09
+//@   bytes: key
+//@   replay: auto
+//@   ensures result == inRange(startKey, endKey, key)
+
+//@ func (l *KeyLocation) Contains
+//@   prop C09
+//@   bytes: key
+//@   modifies nothing
+//@   ensures result == inRange(l.StartKey, l.EndKey, key)
+
+//@ func (r *Region) Contains
+//@   prop C09
+//@   bytes: key
+//@   modifies nothing
+//@   requires r.meta != nil
+//@   ensures result == inRange(r.meta.StartKey, r.meta.EndKey, key)
+
+//@ func (r *Region) ContainsByEnd
+//@   prop C09
+//@   bytes: key
+//@   modifies nothing
+//@   requires r.meta != nil
+//@   ensures result == inRangeByEnd(r.meta.StartKey, r.meta.EndKey, key)
+
+// ---- stitching cached and freshly loaded regions (batchLocateRangesMerger) -----------------------------
+
+// A cached region may be left out only if it is covered by what was already loaded: its end is bounded and does not
+// exceed the end of the last loaded region. (An empty end key is +infinity and is never covered.)
+//@ spec func covered(e []byte, last []byte) bool { return e != "" && e <= last }
+//@ spec func locOf(l *KeyLocation, r *Region) bool { return l != nil && l.StartKey == r.meta.StartKey && l.EndKey == r.meta.EndKey }
+//@ spec func validRegions(rs []*Region) bool { return forall i int :: 0 <= i && i < len(rs) ==> rs[i] != nil && rs[i].meta != nil }
+
+//@ func (m *batchLocateRangesMerger) appendKeyLocation
+//@   prop C09
+//@   bytes: key
+//@   requires r != nil && r.meta != nil
+//@   ensures appended: len(m.mergedLocations) == old(len(m.mergedLocations)) + 1 && locOf(m.mergedLocations[len(m.mergedLocations)-1], r)
+//@   ensures kept: forall j int :: 0 <= j && j < old(len(m.mergedLocations)) ==> m.mergedLocations[j] == old(m.mergedLocations[j])
+//@   ensures frame: m.cachedIdx == old(m.cachedIdx) && m.lastEndKey == old(m.lastEndKey) && m.cachedRegions == old(m.cachedRegions)
+
+// build / appendRegion walk the remaining cached regions once. Per step (one loop iteration, relative to the loop head):
+// either the region under the cursor is covered and nothing is appended, or exactly this region is appended last;
+// the cursor advances by one. (By induction: every non-covered cached region passed by the cursor is in the output, in order.)
+//@ spec func mergeStep(m *batchLocateRangesMerger, idx0 int, len0 int) bool {
+//@   return m.cachedIdx == idx0 + 1 &&
+//@     ((m.lastEndKey != nil && covered(m.cachedRegions[idx0].meta.EndKey, *m.lastEndKey) && len(m.mergedLocations) == len0) ||
+//@      (len(m.mergedLocations) == len0 + 1 && locOf(m.mergedLocations[len0], m.cachedRegions[idx0]))) }
+
+//@ func (m *batchLocateRangesMerger) build
+//@   prop C09
+//@   bytes: key
+//@   requires validRegions(m.cachedRegions) && 0 <= m.cachedIdx && m.cachedIdx <= len(m.cachedRegions)
+//@   loop 1 invariant idx: old(m.cachedIdx) <= m.cachedIdx && m.cachedIdx <= len(m.cachedRegions) && len(m.mergedLocations) >= old(len(m.mergedLocations)) && m.cachedRegions == old(m.cachedRegions) && m.lastEndKey == old(m.lastEndKey)
+//@   loop 1 invariant kept: forall j int :: 0 <= j && j < old(len(m.mergedLocations)) ==> m.mergedLocations[j] == old(m.mergedLocations[j])
+//@   loop 1 step walk: mergeStep(m, prev(m.cachedIdx), prev(len(m.mergedLocations)))
+//@   ensures all: m.cachedIdx == len(m.cachedRegions) && result == m.mergedLocations && len(result) >= old(len(m.mergedLocations))
+//@   ensures kept: forall j int :: 0 <= j && j < old(len(m.mergedLocations)) ==> result[j] == old(m.mergedLocations[j])
+
+// appendRegion: cached regions that lie before the freshly loaded region and are not covered are appended first, then the
+// loaded region itself (always); afterwards the cursor state records the end of what was loaded.
+//@ func (m *batchLocateRangesMerger) appendRegion
+//@   prop C09
+//@   bytes: key
+//@   requires validRegions(m.cachedRegions) && 0 <= m.cachedIdx && m.cachedIdx <= len(m.cachedRegions) && uncachedRegion != nil && uncachedRegion.meta != nil
+//@   requires m.lastEndKey != nil ==> *m.lastEndKey != ""
+//@   loop 1 invariant idx: old(m.cachedIdx) <= m.cachedIdx && m.cachedIdx <= len(m.cachedRegions) && len(m.mergedLocations) >= old(len(m.mergedLocations)) && m.cachedRegions == old(m.cachedRegions) && m.lastEndKey == old(m.lastEndKey)
+//@   loop 1 invariant kept: forall j int :: 0 <= j && j < old(len(m.mergedLocations)) ==> m.mergedLocations[j] == old(m.mergedLocations[j])
+//@   loop 1 step walk: mergeStep(m, prev(m.cachedIdx), prev(len(m.mergedLocations))) && (len(m.mergedLocations) > prev(len(m.mergedLocations)) ==> m.cachedRegions[prev(m.cachedIdx)].meta.StartKey < uncachedRegion.meta.StartKey)
+//@   ensures last: len(m.mergedLocations) > old(len(m.mergedLocations)) && locOf(m.mergedLocations[len(m.mergedLocations)-1], uncachedRegion)
+//@   ensures kept: forall j int :: 0 <= j && j < old(len(m.mergedLocations)) ==> m.mergedLocations[j] == old(m.mergedLocations[j])
+//@   ensures cursor: (uncachedRegion.meta.EndKey == "" ==> m.cachedIdx == len(m.cachedRegions)) && (uncachedRegion.meta.EndKey != "" ==> m.lastEndKey != nil && *m.lastEndKey == uncachedRegion.meta.EndKey)
+//@   ensures endinv: m.lastEndKey != nil ==> *m.lastEndKey != ""
+//@   ensures frame: m.cachedRegions == old(m.cachedRegions) && old(m.cachedIdx) <= m.cachedIdx && m.cachedIdx <= len(m.cachedRegions)
+
+// ---- single-key lookups -------------------------------------------------------------------------------
+
+//@ spec func holds(r *Region, key []byte, isEndKey bool) bool { return r != nil && r.meta != nil && ite(isEndKey, inRangeByEnd(r.meta.StartKey, r.meta.EndKey, key), inRange(r.meta.StartKey, r.meta.EndKey, key)) }
+
+// The B-tree holds items whose region and region meta are present (data invariant of the cache, assumed for the callback).
+//@ func (s *SortedRegions) SearchByKey
+//@   prop C09
+//@   bytes: key
+//@   at call(DescendLessOrEqual) iterate found: r == nil || holds(r, key, isEndKey) given item0 != nil && item0.cachedRegion != nil && item0.cachedRegion.meta != nil
+//@   ensures result != nil ==> holds(result, key, isEndKey)
+
+// newRegion wraps the meta PD returned (store resolution is not verified).
+//@ func newRegion
+//@   trusted
+//@   modifies nothing
+//@   ensures result1 == nil ==> result0 != nil && result0.meta == pdRegion.Meta && fresh(result0)
+
+//@ func (c *RegionCache) searchCachedRegionByKey
+//@   prop C09
+//@   bytes: key
+//@   ensures result0 != nil ==> holds(result0, key, isEndKey)
+//@   ensures result0 == nil ==> !result1
+
+//@ func (c *RegionCache) tryFindRegionByKey
+//@   prop C09
+//@   bytes: key
+//@   ensures result != nil ==> holds(result, key, isEndKey)
+
+// loadRegion asks PD; for an end-key lookup it switches to the previous region when PD's answer starts exactly at the key.
+//@ func (c *RegionCache) loadRegion
+//@   prop C09
+//@   bytes: key
+//@   loop 1 invariant prev: searchPrev ==> isEndKey && key != ""
+//@   ensures found: result1 == nil ==> holds(result0, key, isEndKey)
+
+//@ func (c *RegionCache) findRegionByKey
+//@   prop C09
+//@   bytes: key
+//@   ensures found: result1 == nil ==> holds(result0, key, isEndKey)
+
+//@ spec func locHolds(l *KeyLocation, key []byte, isEndKey bool) bool { return l != nil && ite(isEndKey, inRangeByEnd(l.StartKey, l.EndKey, key), inRange(l.StartKey, l.EndKey, key)) }
+
+//@ func (c *RegionCache) LocateKey
+//@   prop C09
+//@   bytes: key
+//@   ensures found: result1 == nil ==> locHolds(result0, key, false)
+
+//@ func (c *RegionCache) TryLocateKey
+//@   prop C09
+//@   bytes: key
+//@   ensures found: result != nil ==> locHolds(result, key, false)
+
+//@ func (c *RegionCache) LocateEndKey
+//@   prop C09
+//@   bytes: key
+//@   ensures found: result1 == nil ==> locHolds(result0, key, true)
